@@ -46,6 +46,57 @@ def _replay(name, law):
     return replay_fn(PROPERTY, f"{name}.{law}", body, key=f"{name}/{law}")
 
 
+def ob_reuse(name):
+    """one term object used (tsukamoto and membership), then re-parameterised through its attributes, then used again: the
+    inverse is the one of the current parameters"""
+    def run(ob):
+        fl = install()
+        set_mode("R")
+        params, valid, mu, at_inf, mono = spec.TERMS[name]
+        P0 = {k: rvar(k + "_old") for k in params}
+        P = sym_params(name)
+        h0, h, y0, y = rvar("h_old"), rvar("h"), rvar("y_old"), rvar("y")
+        Pv0, Pv = {k: v.v for k, v in P0.items()}, {k: v.v for k, v in P.items()}
+        pre = [valid(Pv0), valid(Pv), y.v > 0, y.v < h.v, y0.v > 0, y0.v < h0.v] + hpre(h) + hpre(h0)
+        ins = _inputs(P, h)
+        ins.update({k + "_old": v for k, v in P0.items()})
+        ins.update({"y": y, "h_old": h0, "y_old": y0})
+        label = f"{name}/reuse"
+
+        def rbody(v):
+            old = {k: v[k + "_old"] for k in params}
+            old["h"] = v["h_old"]
+            return "\n".join([f"t = {py_ctor(name, old)}", f"t.membership(t.tsukamoto({lit(v['y_old'])})); t.tsukamoto(np.array([{lit(v['y_old'])}]))"] +
+                              [f"t.{k} = {lit(v[k])}" for k in params] + [f"t.height = {lit(v['h'])}", f"y = {lit(v['y'])}",
+                               f"fresh = {py_ctor(name, v)}",
+                               "z = float(t.tsukamoto(y)); back = float(fresh.membership(z))",
+                               f"verdict(not same(back, y, 1e-7), '{name} re-parameterised: tsukamoto(%r) = %r, membership of a fresh term there = %r' % (y, z, back))"])
+
+        rp = replay_fn(PROPERTY, label, rbody, key=label)
+
+        def body():
+            t = mk(fl, name, P0, h0)
+            t.membership(t.tsukamoto(y0))
+            t.tsukamoto(sym_array([y0]))
+            for k in params:
+                if not hasattr(t, k):
+                    raise AssertionError(f"{name} has no attribute {k}")
+                setattr(t, k, P[k])
+            t.height = h
+            z = t.tsukamoto(y)
+            return z, mk(fl, name, P, h).membership(z)       # membership taken from a fresh term with the current parameters
+
+        for p in ob.paths(pre, body):
+            if p.exc is not None:
+                ob.unexpected(pre, p, label, ins, rp)
+                continue
+            z, back = tf(p.result[0]), tf(p.result[1])
+            ob.prove(pre, p, z3.And(ZB(z.fin()), is_val(back, y.v)), label, ins, rp)
+            ob.expect_sat(pre, p, is_val(back, y.v / 2), f"{label}/twin")
+
+    return run
+
+
 def ob_inverse(name):
     def run(ob):
         fl = install()
@@ -179,6 +230,7 @@ def _obligations(tier, seed):
         obs.append((f"{name}/R/inverse", ob_inverse(name)))
         obs.append((f"{name}/R/monotone", ob_mono(name)))
         obs.append((f"{name}/R/arrays", ob_arrays(name, tier)))
+        obs.append((f"{name}/R/reuse", ob_reuse(name)))
     obs.append(("non-monotonic/refuse", ob_refuse))
     return obs
 
